@@ -283,6 +283,12 @@ def run(ctx):
     for _ in range(ctx.n(40)):
         emptied_history(ctx)
     far_common_inferred_shape(ctx)
+    # three one-axis dimensions on every run (each one - first, middle, last - goes through every common value, rare and absent
+    # ones included): the walk treats the first, the middle and the last dimension differently
+    for rep in range(3):
+        case = A.gen_case(ctx.rng, multi_axis=False, k=3, N=(9, 5, 13)[rep])
+        ctx.hit("three_one_axis_dims")
+        check(ctx, case, reqs, pend)
     for it in range(ctx.n(14)):
         case = A.gen_case(ctx.rng, multi_axis=ctx.rng.random() < 0.3, k=ctx.rng.choice([1, 2, 2, 3]),
                           N=ctx.rng.choice([0, 1, 3, 5, 9]), general=(it % 4 == 3))
